@@ -58,6 +58,16 @@ CHECKS = {
          "Complete enumeration of all pairs (quick) / triples (thorough) of request-only services against all short messages.",
     note="Trusted: reference encoder/dispatcher vlib/models/dispatch.py (no odxtools import), Hypothesis. Undecided situations (trailing bytes, half-constant first byte) are in the MAY class and never asserted. Known finding C06-empty-prefix-never-found excluded by predicate.",
     design="3/C06"),
+ "C07": dict(
+    technique="differential testing against an exact rational (fractions.Fraction) reference of all compu categories; exhaustive 8-bit internal domains",
+    text="Bounded exploration: Hypothesis-generated compu methods of every category (IDENTICAL, LINEAR, SCALE-LINEAR, TEXTTABLE, TAB-INTP, RAT-FUNC, "
+         "SCALE-RAT-FUNC, COMPUCODE) x internal/physical type pairs x coefficients, limits and interval types, built both directly from the "
+         "dataclasses and through XML; for every value of 8-bit internal domains (exhaustive) and boundary/random values otherwise: validity, "
+         "internal->physical and physical->internal results in the reference's nearest-integer result set (or within float tolerance), image "
+         "validity and round trip for injective methods, declared-valid physical values convert, monotone continuous SCALE-LINEAR encodes, "
+         "Limit/compare_odx_values agree with exact comparison.",
+    note="Trusted: vlib/refcompu.py (exact arithmetic, no odxtools import), Hypothesis. Situations the statement leaves open (one-sided scales, floats offered to integer sides, overlapping text scales) are generated but not judged (listed in the evidence assumptions).",
+    design="3/C07"),
  "C08": dict(
     technique="Hypothesis-generated descriptions; static metadata cross-checked against actual encodings, omission and alternative-value experiments per parameter",
     text="Bounded exploration: for generated descriptions x accepted assignments (a) get_static_bit_length of message, parameters and "
